@@ -2,7 +2,7 @@
 import re
 from ..guards import cmp_facts, ne, sh, upper_bound
 from ..mir import parent_fn
-from ..panics import collect_sites
+from ..panics import collect_sites, label_names
 from ..tables import mir_enum_table
 
 ROOTS = ["runtime::Runtime::run", "runtime::Runtime::run_with_analysis"]
@@ -515,10 +515,73 @@ def r4_unchecked(ctx):
 LOOKUP_CALLS = ("lookup_local", "lookup_var", "lookup_local_mut", "lookup_var_mut", "lookup_local_ref", "lookup_var_ref")
 
 
+def block_variables_exist_from_block_entry(ctx):
+    """Does the runtime create a slot for every variable of a block that defines functions *when the block is entered*?
+    Looked for in hoist_block_functions (called by exec_block_with_flow before its statement loop): a loop over the block's
+    statements that, for `make` statements, takes the bound local and defines it (with null), and that lies on every path
+    from a register_function call to the routine's return.  -> (True/False, explanation)"""
+    from .c03 import natural_loop
+    eb = ctx.lib.fns.get("runtime::Runtime::exec_block_with_flow")
+    hb = ctx.lib.fns.get("runtime::Runtime::hoist_block_functions")
+    if eb is None or hb is None:
+        return False, "exec_block_with_flow / hoist_block_functions not found"
+    hoists = eb.calls_to("runtime::Runtime::hoist_block_functions")
+    execs = eb.calls_to("runtime::Runtime::exec_stmt")
+    if not hoists or not execs or not all(eb.dominates(hoists[0].block, e.block) for e in execs):
+        return False, "hoist_block_functions does not run before the block's statements"
+    regs = hb.calls_to("runtime::Runtime::register_function")
+    defs = [c for c in hb.calls() if (c.callee or "").endswith("Runtime::define_bound_local")]
+    binds = [c for c in hb.calls() if (c.callee or "").endswith("Runtime::bound_stmt_local")]
+    if not regs or not defs or not binds:
+        return False, "hoist_block_functions registers functions but defines no variables"
+    # the defining loop: natural loop containing the define call; under the Assign outcome of the statement dispatch
+    body = set()
+    for H in sorted(hb.live):
+        nl = natural_loop(hb, H)
+        if defs[0].block in nl and (not body or len(nl) < len(body)):
+            body, head = nl, H
+    if not body:
+        return False, "the variables are not defined in a loop over the block's statements"
+    assign_only = False
+    for S, al in hb.constraints(defs[0].block):
+        si = hb.switch_info(S)
+        if si["kind"] == "discr" and si["ty"].endswith("parser::Stmt") and label_names(hb, S, al, si) == {"Assign"}:
+            assign_only = True
+    nulls = "Value::Null" in sh(ne(hb.deep(defs[0].args[-1])))
+    # a flag raised right after every registration (`defines_function = true`) cannot be false afterwards: the false side of a
+    # test of that flag is not a way out for a path that has registered a function (the flag is only ever assigned constants)
+    flags = None
+    for r in regs:
+        here = {st["lhs"]["l"] for st in hb.blocks[r.target]["s"] if r.target is not None and not st["lhs"]["p"] and st["rv"]["k"] == "use" and isinstance(st["rv"]["a"], dict) and st["rv"]["a"].get("int") == 1}
+        flags = here if flags is None else flags & here
+    flags = {l for l in (flags or set()) if all(kk != "t" and st["rv"]["k"] == "use" and isinstance(st["rv"]["a"], dict) and st["rv"]["a"].get("int") in (0, 1) for (bi, kk, st) in hb.whole_defs(l))}
+    dead = []
+    for S in sorted(hb.live):
+        if hb.blocks[S]["t"]["k"] == "switch":
+            d = hb.blocks[S]["t"]["d"]
+            pl = (d.get("move") or d.get("copy")) if isinstance(d, dict) else None
+            root = pl["l"] if pl is not None and not pl["p"] else None
+            if root is not None and root not in flags:
+                dd = hb.whole_defs(root)
+                if len(dd) == 1 and dd[0][1] != "t" and dd[0][2]["rv"]["k"] == "use" and isinstance(dd[0][2]["rv"]["a"], dict):
+                    p2 = dd[0][2]["rv"]["a"].get("move") or dd[0][2]["rv"]["a"].get("copy")
+                    root = p2["l"] if p2 is not None and not p2["p"] else root
+            if root in flags:
+                dead.append((S, 0))
+    reach_exit_without = set(hb.exits()) & hb.reach([r.target for r in regs if r.target is not None], removed_nodes=[head], removed_edges=dead)
+    if not assign_only or not nulls:
+        return False, "the definition is not `null` for every `make` statement of the block"
+    if reach_exit_without:
+        return False, "a block can register a function without defining its variables"
+    return True, "every `make` variable of a block that defines a function gets a null slot at block entry (hoist_block_functions, before any statement runs)"
+
+
 def r5_binding_expects(ctx):
     """expect/unwrap (or a post-loop unreachable!) on a variable lookup: reachable when a hoisted function runs
-    before an enclosing local's declaration has executed (the resolver checks lexical, not temporal, order)."""
+    before an enclosing local's declaration has executed (the resolver checks lexical, not temporal, order) - unless the
+    variables of a block that defines functions exist from the moment the block is entered."""
     n = 0
+    pre, pre_why = block_variables_exist_from_block_entry(ctx)
     for fn in [f for f in judged_bodies(ctx) if f.file == "src/runtime.rs"]:
         for st in collect_sites(fn, ctx.lib):
             if st.kind != "expect":
@@ -542,6 +605,9 @@ def r5_binding_expects(ctx):
             n += 1
             key = "%s|expect|%s" % (parent_fn(fn.id), "+".join(srcs))
             ordn = sum(1 for r in ctx.records if r["rule"] == ctx.rule and r["instance"].startswith(key))
+            if pre:
+                ctx.ok(key + "#%d" % (ordn + 1), fn.where(st.block), "%s; the name-keyed fallback is taken only without binding facts, i.e. outside static checking (every resolved reference has a binding: C04-R5b)" % pre_why)
+                continue
             ctx.bad(key + "#%d" % (ordn + 1), fn.where(st.block),
                     "panics when the variable has no live binding: a hoisted function called before the enclosing declaration ran reaches this (%s)" % st.message)
         # unreachable!() after an exhausted search of the environment (assign to a binding that is not live)
@@ -561,6 +627,9 @@ def r5_binding_expects(ctx):
                 continue
             n += 1
             key = "%s|post-search-panic|env" % parent_fn(fn.id)
+            if pre:
+                ctx.ok(key, fn.where(st.block), pre_why)
+                continue
             ctx.bad(key, fn.where(st.block),
                     "panics when no scope holds the variable: an assignment inside a hoisted function that runs before the enclosing declaration reaches this (%s)" % st.message)
     ctx.floor("variable-lookup expects", n, 8)
